@@ -661,10 +661,11 @@ fn parse_positional<'a>(
                 update_state_with_new_positional(pos_index)
             }
         }
-        ParseState::Opt(..) => unreachable!(
-            "This branch won't be hit,
-            because ParseState::Opt should not be seen as a positional argument and passed to this function."
-        ),
+        ParseState::Opt(..) => {
+            // The option that was awaiting a value did not get this token (an unknown flag that a
+            // hyphen-accepting positional takes instead): the pending option is abandoned
+            update_state_with_new_positional(pos_index)
+        }
     }
 }
 
